@@ -18,6 +18,12 @@ def run(ctx):
     mut = tlc.run("SocketServerLoop", "SSL_unfixed.cfg", scratch=ctx.scratch, timeout=300, parse_trace=False)
     if not mut.violated or mut.violated == "error":
         ctx.machinery("TLC: the design that restores the directory only when the loop is left is not rejected (SocketServerLoop vacuous)")
+    one = tlc.run("SocketServerLoop", "SSL_oneshot.cfg", scratch=ctx.scratch, timeout=300, parse_trace=False)
+    if not one.ok:
+        ctx.machinery(f"TLC SocketServerLoop/SSL_oneshot: {one.violated} {one.error[:400]}")
+    onem = tlc.run("SocketServerLoop", "SSL_oneshot_unfixed.cfg", scratch=ctx.scratch, timeout=300, parse_trace=False)
+    if onem.violated != "EveryConnectionStartsInLaunchDir":
+        ctx.machinery(f"TLC: the one-connection (installvia) server that does not go back is not rejected ({onem.violated})")
     rng = random.Random(ctx.seed + 16)
     ws = ssloop_real.words(2)
     longer = [w for w in ssloop_real.words(3) if len(w) == 3]
